@@ -76,12 +76,15 @@ Theorem C03_rewriting_non_gate_fields_is_invisible :
 Proof. intros hmac. exact (set_meta_same_gate hmac MaxFailures PermanentBanAt). Qed.
 Print Assumptions C03_rewriting_non_gate_fields_is_invisible.
 
-(* the asynchronous removal of an expired ban (unbanIfExpired, spawned by IsBanned) and a short ban that runs out are events
+(* the asynchronous removal of an expired ban (unbanIfExpired, spawned by IsBanned), a short ban that runs out, and the periodic
+   cleanup tick (ECleanup: it deletes only records whose own deadline has passed — a ban in force, e.g. an operator ban longer than
+   the configured BanDuration, is untouched; C03_ban_in_force_persists and C03_perm_ban_absorbing quantify over it) are events
    of every history above; neither changes the state: a ban in force is never lifted by them, so C03_gated keeps applying *)
 Theorem C03_async_unban_is_inert :
   forall hmac v s a,
   fst (step hmac MaxFailures PermanentBanAt v s (EUnbanLands a)) = s /\
-  fst (step hmac MaxFailures PermanentBanAt current_variant s (EBanLapse a)) = s.
+  fst (step hmac MaxFailures PermanentBanAt current_variant s (EBanLapse a)) = s /\
+  fst (step hmac MaxFailures PermanentBanAt v s (ECleanup a)) = s.
 Proof. intros hmac. exact (async_unban_is_inert hmac MaxFailures PermanentBanAt). Qed.
 Print Assumptions C03_async_unban_is_inert.
 
